@@ -85,20 +85,24 @@ func init() {
 		return nil
 	}
 	l0models = map[string]l0model{
-		"github.com/cosmos/cosmos-sdk/types.UnwrapSDKContext":                    opaque("sdkctx"),
-		"(github.com/cosmos/cosmos-sdk/types.Context).EventManager":              opaque("evmgr"),
-		"github.com/cosmos/cosmos-sdk/types.GetConfig":                           opaque("sdkconfig"),
-		"invoke:log.Logger.With":                                                 opaque("logger"),
-		"fmt.Sprintf":                                                            func(ex *Exec, st *State, cc *ssa.CallCommon, a []Value) []Value { return one(VStr{ex.freshBytes(st, "sprintf")}) },
-		"cosmossdk.io/errors.Wrap":                                               wrap,
-		"cosmossdk.io/errors.Wrapf":                                              wrap,
-		"errors.New":                                                             errNonNil,
-		"fmt.Errorf":                                                             errNonNil,
-		"google.golang.org/grpc/status.Error":                                    errNonNil, // codes passed are never codes.OK (checked syntactically below)
-		"invoke:error.Error":                                                     func(ex *Exec, st *State, cc *ssa.CallCommon, a []Value) []Value { return one(VStr{ex.freshBytes(st, "errtext")}) },
-		"cosmossdk.io/errors.Register":                                           opaque("registered-error"),
-		"invoke:store.KVStoreService.OpenKVStore":                                func(ex *Exec, st *State, cc *ssa.CallCommon, a []Value) []Value { return one(VStore{EmptyBytes}) },
-		"github.com/cosmos/cosmos-sdk/runtime.KVStoreAdapter":                    func(ex *Exec, st *State, cc *ssa.CallCommon, a []Value) []Value { return one(a[0]) },
+		"github.com/cosmos/cosmos-sdk/types.UnwrapSDKContext":       opaque("sdkctx"),
+		"(github.com/cosmos/cosmos-sdk/types.Context).EventManager": opaque("evmgr"),
+		"github.com/cosmos/cosmos-sdk/types.GetConfig":              opaque("sdkconfig"),
+		"invoke:log.Logger.With":                                    opaque("logger"),
+		"fmt.Sprintf": func(ex *Exec, st *State, cc *ssa.CallCommon, a []Value) []Value {
+			return one(VStr{ex.freshBytes(st, "sprintf")})
+		},
+		"cosmossdk.io/errors.Wrap":            wrap,
+		"cosmossdk.io/errors.Wrapf":           wrap,
+		"errors.New":                          errNonNil,
+		"fmt.Errorf":                          errNonNil,
+		"google.golang.org/grpc/status.Error": errNonNil, // codes passed are never codes.OK (checked syntactically below)
+		"invoke:error.Error": func(ex *Exec, st *State, cc *ssa.CallCommon, a []Value) []Value {
+			return one(VStr{ex.freshBytes(st, "errtext")})
+		},
+		"cosmossdk.io/errors.Register":                        opaque("registered-error"),
+		"invoke:store.KVStoreService.OpenKVStore":             func(ex *Exec, st *State, cc *ssa.CallCommon, a []Value) []Value { return one(VStore{EmptyBytes}) },
+		"github.com/cosmos/cosmos-sdk/runtime.KVStoreAdapter": func(ex *Exec, st *State, cc *ssa.CallCommon, a []Value) []Value { return one(a[0]) },
 		"cosmossdk.io/store/prefix.NewStore": func(ex *Exec, st *State, cc *ssa.CallCommon, a []Value) []Value {
 			parent := a[0].(VStore)
 			return one(VStore{Cat(parent.Prefix, ex.bytesOf(st, a[1]))})
